@@ -434,7 +434,7 @@ def search(run: Run):
 def main():
     run = Run(
         PID,
-        ["RV.Props.C12", "RV.Bridge.Maths"],
+        ["RV.Props.C12", "RV.Bridge.Maths", "RV.Bridge.MathsProps"],
         ["RV/Model/Elements.lean"],
         "Lean 4 theorems (the state coe2eci builds has exactly the radius, speed, angular momentum, node line, eccentricity vector, semi-major axis and quadrant signs that eci2coe "
         "measures; branch structure, zeroed elements, ranges and longitude preservation of singularityCheck incl. retrograde equatorial orbits; orthonormal right-handed equinoctial "
